@@ -371,7 +371,8 @@ class DQN(RLAlgorithm):
         self.set_training_mode(False)
         with torch.no_grad():
             rewards = []
-            num_envs = env.num_envs if hasattr(env, "num_envs") else 1
+            is_vectorised = hasattr(env, "num_envs")
+            num_envs = env.num_envs if is_vectorised else 1
             for _ in range(loop):
                 obs, info = env.reset()
                 scores = np.zeros(num_envs)
@@ -384,7 +385,13 @@ class DQN(RLAlgorithm):
 
                     action_mask = info.get("action_mask", None)
                     action = self.get_action(obs, epsilon=0.0, action_mask=action_mask)
+                    if not is_vectorised:
+                        action = action[0]
+
                     obs, reward, done, trunc, info = env.step(action)
+                    if not is_vectorised:
+                        done, trunc = [done], [trunc]
+
                     step += 1
                     scores += np.array(reward)
                     for idx, (d, t) in enumerate(zip(done, trunc)):
